@@ -634,4 +634,58 @@ example := colBmod_spec false true 6 1 0 cSegrep cRepfnz cXsup cSupno cLsub cXls
   (by decide) (by decide) (fun t u ht hu => cTail_distinct t ht u hu) (by decide +kernel) (by decide +kernel) (by decide)
   (by decide) (by decide +kernel) (by decide +kernel)
 
+/-- **C01/C02 (one U-segment of `column_bmod` instantiates the "dense solve + gemv" step of the
+supernodal schedule theorem).**  `cols` are the columns `kfnz..krep` of the supernode as the
+factorization model holds them (`(pivot row, column of L)`, e.g. a block of `prev st j` in C02
+`luFactor_supernodal_schedule`), agreeing with the storage on the rows `kfnz..` of the supernode (zero
+above the pivot, one at the pivot, the stored multipliers below).  Then what the iteration — the
+hand-written cases for sizes 1, 2, 3 or mirrored `lsolve` + `matvec` — leaves in `dense` is the abstract
+block update `Slu.LU.snodeBlock cols dense` (= `elimBlocks [cols] dense` = the column-by-column
+elimination `elim cols dense`): its U-segment at the pivot rows (where `column_bmod` parks it until
+`copy_to_ucol`), its remaining vector at the rows below. -/
+theorem colBmod_segment_is_supernodal_step (cplx segOps : Bool) (jcol fpanelc : Nat)
+    (xsup supno lsub xlsub repfnz : Array Nat) (krep : Nat) (st : SnodeSt K) (g : Seg)
+    (hg : g = segGeom fpanelc xsup supno xlsub st.xlusup repfnz krep)
+    (hne : supno[jcol]! ≠ supno[krep]!) (ok : SegOK lsub g st.dense)
+    (htv : 4 ≤ g.segsze → g.segsze + g.nrow ≤ st.tempv.size)
+    (htz : 4 ≤ g.segsze → ∀ i, i < g.segsze + g.nrow → st.tempv[i]! = 0)
+    (cols : List (Nat × LU.Vec K)) (hlen : cols.length = g.segsze)
+    (R1 : ∀ t (ht : t < cols.length), (cols[t]).1 = lsub[g.lptr + g.noZeros + t]!)
+    (R2 : ∀ t (ht : t < cols.length) i, i < g.segsze + g.nrow → (cols[t]).2.get (lsub[g.lptr + g.noZeros + i]!) =
+        if i < t then 0 else if i = t then 1
+        else st.lusup[g.luptr + (g.nsupr * g.noZeros + g.noZeros) + (t * g.nsupr + i)]!) :
+    LU.snodeBlock cols st.dense = LU.elim cols st.dense ∧
+    LU.elimBlocks [cols] st.dense = LU.elim cols st.dense ∧
+    (∀ s, s < g.segsze →
+      (colSegment cplx segOps jcol fpanelc xsup supno lsub xlsub repfnz krep st).dense[lsub[g.lptr + g.noZeros + s]!]! =
+        (LU.snodeBlock cols st.dense).2.getD s 0) ∧
+    (∀ i, i < g.nrow →
+      (colSegment cplx segOps jcol fpanelc xsup supno lsub xlsub repfnz krep st).dense[lsub[g.lptr + g.noZeros + (g.segsze + i)]!]! =
+        (LU.snodeBlock cols st.dense).1.get (lsub[g.lptr + g.noZeros + (g.segsze + i)]!)) := by
+  obtain ⟨hU, hr, c1, c2⟩ := segUpdate_eq_snodeBlock' cplx lsub g st.lusup st.dense st.tempv ok htv htz cols hlen R1 R2
+  have hd : (colSegment cplx segOps jcol fpanelc xsup supno lsub xlsub repfnz krep st).dense =
+      (segUpdate cplx lsub g st.lusup st.dense st.tempv).1 := by
+    unfold colSegment; rw [if_pos hne, ← hg]
+  have hb := LU.snodeBlock_eq_elim cols st.dense hU hr
+  have hs := LU.snodeSolve_eq_elim cols st.dense hr
+  refine ⟨hb, ?_, fun t ht => ?_, fun i hi => ?_⟩
+  · have := LU.elimBlocks_eq_elim [cols] st.dense (fun b hb' => by simp at hb'; subst hb'; exact hU)
+      (fun b hb' x hx => by simp at hb'; subst hb'; exact hr x hx)
+    simpa using this
+  · rw [hd, c1 t ht, hb, hs]
+  · rw [hd, c2 i hi, hb, hs, LU.snodeGemv_eq_elim]
+
+/-! the model's columns for the example segment (`cG`: columns 0..4 of the first supernode, 7 rows) -/
+def cCols : List (Nat × LU.Vec Rat) := (List.range 5).map fun t =>
+  (cLsub[t]!, (Array.range 7).map fun r =>
+    match (List.range 7).find? (fun i => cLsub[i]! == r) with
+    | some i => if i < t then 0 else if i = t then 1 else cLusup[t * 7 + i]!
+    | none => 0)
+theorem cCols_R1 : ∀ t (ht : t < cCols.length), (cCols[t]).1 = cLsub[cG.lptr + cG.noZeros + t]! := by decide +kernel
+theorem cCols_R2 : ∀ t (ht : t < cCols.length) i, i < cG.segsze + cG.nrow → (cCols[t]).2.get (cLsub[cG.lptr + cG.noZeros + i]!) =
+    if i < t then 0 else if i = t then 1
+    else cSt.lusup[cG.luptr + (cG.nsupr * cG.noZeros + cG.noZeros) + (t * cG.nsupr + i)]! := by decide +kernel
+example := colBmod_segment_is_supernodal_step false true 6 0 cXsup cSupno cLsub cXlsub cRepfnz 4 cSt cG rfl (by decide +kernel) cG_ok
+  (fun _ => by decide +kernel) (fun _ => by decide +kernel) cCols (by decide +kernel) cCols_R1 cCols_R2
+
 end Slu.ColBmod
